@@ -31,14 +31,15 @@ META = {
             'Schedule layer: reactor thread (delivers the USE result at a scheduler-chosen moment, then every server answer) '
             'against the executor thread running HostConnection._replace / HostConnectionPool._retrying_replace or '
             'Session.add_or_renew_pool, scheduling points at every virtual primitive and every source line of the switch, '
-            'replacement and pool-creation functions, preemption bound 1.  Oracle, in every state and again after the default '
+            'replacement and pool-creation functions, preemption bound 1 (thorough: bound 2 for the v4 replacement scenario).  Oracle, in every state and again after the default '
             'continuation (every held USE answered successfully, every task run, every scheduled task fired, no client timer): '
             '(1) the switch has completed; (2) if it reports success and no USE was failed, every probe request sent afterwards to '
             'every pool is carried by a connection on which the *server* has the new keyspace selected; (3) if the explorer '
             'failed the USE of any pool (error answer or connection lost while pending) the switch reports an error, and the '
             'error of the switch names every failing host.',
     'note': 'Handlers are atomic in the history layer; intra-handler preemption is covered by the schedule layer at source-line '
-            'granularity, bound 1.  A client-side request timeout is not counted as the switch completing.  USEs issued '
+            'granularity within the preemption bound.  The canonical state of the history layer is compared against no-dedup '
+            'runs in the thorough tier.  A client-side request timeout is not counted as the switch completing.  USEs issued '
             'from executor tasks (blocking ones on replacement connections / new pools) are always answered successfully.  '
             'Two overlapping switches are not explored.  The clause "names every failing host" comes from the docstring of '
             'Session._set_keyspace_for_all_pools and has its own fingerprint.',
@@ -85,15 +86,17 @@ def s_configs(ctx):
     cfgs = [
         ('replace-v4', dict(base, scenario='replace'), 1),
         ('renew-v4-ks1', dict(base, scenario='renew', ks0='ks1'), 1),
+        ('replace-v2', dict(base, scenario='replace', proto=2, core=1), 1),
     ]
     if ctx.thorough:
-        cfgs += [
+        cfgs = [
+            ('replace-v4', dict(base, scenario='replace'), 2),
+            ('renew-v4-ks1', dict(base, scenario='renew', ks0='ks1'), 1),
+            ('replace-v2', dict(base, scenario='replace', proto=2, core=1), 1),
             ('replace-v4-ks1', dict(base, scenario='replace', ks0='ks1'), 1),
             ('renew-v4', dict(base, scenario='renew'), 1),
-            ('replace-v2', dict(base, scenario='replace', proto=2, core=1), 1),
             ('replace-v2-ks1', dict(base, scenario='replace', proto=2, core=1, ks0='ks1'), 1),
             ('renew-v2', dict(base, scenario='renew', proto=2, core=1), 1),
-            ('replace-v4-setks', dict(base, scenario='replace', entry='set_keyspace'), 1),
         ]
     return cfgs
 
@@ -128,7 +131,7 @@ def run(ctx):
     explore.close_pool()
     for name, params, bound in s_configs(ctx):
         sched.explore(ctx, 'c20-' + name, sched_harness, params, bound)
-    ctx.cov['preemption_bound'] = 1
+    ctx.cov['preemption_bound'] = max(b for _, _, b in s_configs(ctx))
     ctx.cov['rule'] = ('history layer: state = event history replayed on a fresh real Session, deduplicated on (future, session keyspace, '
                        'pools, hosts, connections incl. server-side keyspace, held requests, queued/scheduled tasks, timers, oracle memory); '
                        'transitions = executions; non-trivial = distinct state reached after the switch arrived in which a USE was failed, '
